@@ -9,6 +9,24 @@ CLAIMED = {
         "note": "Exact rationals for f32; text.rs is hand-modelled (Svgdx/Geom/Text.lean). The backslash-n grammar of text_string is proved only for backslash-free strings plus worked instances; the rest is correspondence. A genuine defect (content escaped twice) was repaired first.",
         "design_ref": "DESIGN.md §7 C19",
     },
+    "C08": {
+        "technique": "Lean 4 theorems over the translated box algebra (expand/round/combine) and the root-attribute model, plus accumulation lemmas of the control skeleton + root/extent document correspondence",
+        "text": "Machine-checked proof (Lean 4), for all rational boxes, borders, scales and attribute sets: the advertised extent is the content box grown by exactly the border on each side and rounded outward — it encloses the grown box, has integral coordinates and moves each side by less than one unit (round_encloses_tight, expand_by_border, extent_encloses); accumulation is a commutative, associative, idempotent union, so the result is independent of the order in which retry passes let elements succeed (combine_comm, combine_assoc, combine_idem, union_order_independent); a tag that fails in a pass hands the accumulated box on unchanged and one that succeeds is united exactly once (failed_tag_contributes_nothing, succeeded_tag_united_once); with nothing supplied, viewBox is the extent and width/height its size times scale in mm (synthesised_geometry); author width/height are kept (author_width_height_verbatim) and a single supplied dimension determines the other from the aspect ratio in the same unit (width_determines_height); version and namespace are added only when missing (version_namespace_only_if_missing). write_root_svg / split_unit / the transform handling of bounding boxes are hand-modelled (Svgdx/Doc/*) and compared with transform_str on generated documents (groups with transforms, defs/symbol/clipPath content, points, failing elements, all root-attribute combinations); an independent extent calculator is the oracle.",
+        "note": "Exact rationals for f32 (generators on the exactness grid, tolerance otherwise). Three genuine defects were repaired first (rotate/scale bounding boxes, NaN dimension). Text extents are not part of the box (the code counts only the anchor point), as the property's 'drawn content' is read through the code's bbox definition.",
+        "design_ref": "DESIGN.md §7 C08",
+    },
+    "C14": {
+        "technique": "Lean 4 proof that the fuelled recursive-descent evaluator model agrees with a conventional denotation of grammar-shaped trees (any operator instance), error theorems for arbitrary token strings + bit-exact f32/PCG correspondence with the implementation and a reference evaluator",
+        "text": "Machine-checked proof (Lean 4), parametric in the number type, the variable lookup and the random source: for every grammar-shaped expression tree, evaluating its printed token list gives exactly the conventional denotation — value and final random state — and fails exactly when the denotation fails (eval_print, eval_print_expr, eval_print_fails, eval_print_iff), also from the printed character string through the tokenizer (tokenize_render, eval_print_string); corollaries fix precedence and associativity (sub_left_assoc, mul_binds_tighter, mul_level_left_assoc, neg_binds_tightest, parens_override, logical_one_level, list_flattens), 0/1 comparisons (comparison_zero_one, comparison_result_zero_or_one), Euclidean remainder (rem_nonneg, rem_is_percent), degrees (sin_in_degrees); a successful evaluation advances the random source once per random/randint node, no short circuit (draws_eq_occurrences, pcg_counts_random, pcg_counts_randint, pcg_words); a result without '$' or '{{' is not evaluated again (eval_once_per_element_partial); any success saw balanced parentheses, known names, evaluable variables (success_needs_wellformed; unbalanced_fails, unknown_function_fails, undefined_variable_fails, unevaluable_variable_fails, self_reference_fails, circular_variable_error, undefined_variable_error, wrong_arity_fails, wrong_arity_call_fails). The model (all 53 functions, tokenizer, PCG32 with rand 0.9's range algorithm) is run as Float32 against the implementation bit for bit on generated trees, damaged expressions, token soup and whole documents; a reference evaluator written from the documentation is the oracle.",
+        "note": "Function names/operators come from generated tables. libm functions and pi are parameters of the proofs (Float32 in the driver; they were bit-identical here). Element references inside expressions are stubbed (empty context); min/max over NaN is skipped (NaN sign). One genuine defect repaired (clamp NaN panic); open finding: unbounded recursion on deeply nested expressions.",
+        "design_ref": "DESIGN.md §7 C14",
+    },
+    "C20": {
+        "technique": "Lean 4 theorems about the theme-builder model over generated rule tables (rule present iff class used, order/permutation invariance) + byte-exact correspondence of the <style> text",
+        "text": "Machine-checked proof (Lean 4), for all class and element lists and theme configurations: the rule for a d-* class appears in the generated style iff that class is used (fill/stroke/text colour families, stroke widths, text sizes, patterns and the plain vocabulary: *_rule_iff_used, plain_rule_iff_used, no_rule_without_class, no_rule_outside_vocabulary, no_class_no_rule), auxiliary definitions (markers, patterns) accompany their classes (aux_rules_present); the output depends on the set of classes only — not on order or multiplicity (build_mem_invariant, build_perm_invariant) — and rules come out in the fixed documented order (build_order_checked). Rule tables, colour lists and strings are regenerated from themes.rs on every run; the builder is compared byte for byte with ThemeBuilder (hook theme_build) on random class/element sets x all themes, and at document level the classes found by an independent scan of the output are checked against the rules present.",
+        "note": "The iteration order of the class set is modelled as sorted (the code uses BTreeSet after the determinism fix). A genuine defect (root-element classes ignored) was repaired first.",
+        "design_ref": "DESIGN.md §7 C20",
+    },
     "C02": {
         "technique": "Lean 4 theorems about the writer/escape/root-attribute models (all strings, all elements) + byte-exact writer correspondence; expat oracle for the composition",
         "text": "Machine-checked proof (Lean 4), for all strings, elements and configurations, of each ingredient of well-formedness in the model of OutputList::write_to: escaping is exact (unescape (escape s) = s) and safe (no < > quote characters survive) — escaping_exact, escaping_safe, attr_value_has_no_quote; generated comments never contain '--' nor end in '-' (comments_delimited); every emitted element has unique attribute names, with class written once (attributes_unique, attrmap_insert_unique, over the AttrMap lemma library); the root always carries a namespace and a version and keeps the author's attributes (root_namespace_version). The writer model is compared byte for byte with the implementation on random event lists over an XML-hostile alphabet (hook write_events). The composition 'an independent parser accepts every successful output' is decided per document by the expat oracle over documents that route hostile strings into every sink under random configurations.",
